@@ -225,7 +225,11 @@ func checkSendJoinResp(c *fw.Ctx) {
 	succ := fw.ErrNilSuccess(fn, fw.ErrIndex(fn), nil)
 	c.CheckGate(rule, fn, "CheckSendJoinResponse", fw.GuardCallErrNil("CheckStateResponse", fw.NameIs("gmsl.CheckStateResponse")), succ)
 	c.CheckGate(rule, fn, "CheckSendJoinResponse", fw.GuardCallErrNil("checkAllowedByAuthEvents(joinEvent)", fw.NameIs("gmsl.checkAllowedByAuthEvents")), succ)
-	c.CheckGate(rule, fn, "CheckSendJoinResponse", fw.GuardCallErrNil("Allowed(joinEvent, returned state)", fw.NameIs("gmsl.Allowed")), succ)
+	// the check against the returned state is a second, separate application of the rules: the
+	// auth-chain helper applies them to the join's own auth events only and does not stand in for it
+	gAllowed := fw.GuardCallErrNil("Allowed(joinEvent, returned state)", fw.NameIs("gmsl.Allowed"))
+	gAllowed.SkipHelper = func(f *ssa.Function) bool { return fw.FuncName(f) == "gmsl.checkAllowedByAuthEvents" }
+	c.CheckGate(rule, fn, "CheckSendJoinResponse", gAllowed, succ)
 	for _, call := range fw.CallsTo(fn, false, fw.NameIs("gmsl.checkAllowedByAuthEvents", "gmsl.Allowed")) {
 		c.Check(fw.Sig(call.Common().Args[0]) == "param:joinEvent", rule, fw.CalleeName(call)+" checks the join event", c.P.Pos(call.Pos()), "", "first argument is "+fw.Sig(call.Common().Args[0]))
 	}
@@ -404,7 +408,7 @@ func checkLoadAndVerify(c *fw.Ctx) {
 		}
 	}
 	for w := range wraps {
-		c.Fail(rule, w+" classification exists", c.P.Pos(fn.Pos()), "no store of "+w+" into a result")
+		c.Undecided(rule, w+" classification exists", "no store of "+w+" into a result was recognised in "+fw.FuncName(fn))
 	}
 	okLen := false
 	for _, b := range fn.Blocks {
